@@ -388,6 +388,23 @@ func (x *Exec) choose(run []*task) *task {
 	return run[x.rng.Intn(len(run))]
 }
 
+func (x *Exec) safeAdd(s ObjSpec) (msg string) {
+	defer func() {
+		if r := recover(); r != nil {
+			msg = panicSite(r)
+		}
+	}()
+	x.w.add(s)
+	return ""
+}
+
+func describeSpecAny(s ObjSpec) string {
+	if s.T == "C" && s.Kw != nil && s.Op != nil && s.Ex != nil {
+		return fmt.Sprintf("Cond(%v, %v, %v)", *s.Kw, *s.Op, *s.Ex)
+	}
+	return s.T + " " + s.Kind
+}
+
 // simulated clock: the global event sequence number
 func (x *Exec) now() time.Time { return time.Unix(0, x.seq) }
 
@@ -413,8 +430,14 @@ func (x *Exec) Run() {
 	for k, v := range x.tr.Closures {
 		x.w.clos[k] = v
 	}
-	for _, s := range x.tr.Objs {
-		x.w.add(s)
+	for i, s := range x.tr.Objs {
+		// a constructor is library code too: a panic in Cond(...) is a
+		// violation of whatever property is being checked, not a harness fault
+		if msg := x.safeAdd(s); msg != "" {
+			x.w.add(ObjSpec{T: "ZC"})
+			x.fail("panic:constructor", fmt.Sprintf("creating world object %d (%s) panicked: %s", i, describeSpecAny(s), msg))
+			return
+		}
 	}
 	x.prop.Begin(x)
 	for i, op := range x.tr.Setup {
